@@ -153,6 +153,7 @@ pub proof fn lemma_c15_reassemble(h: V1Header)
 /// the canonical line of every address value is a well-formed line of at most 107 bytes (104 for
 /// TCP6) that the text entry point accepts with exactly that value; hence distinct values never
 /// share a line
+#[verifier::rlimit(60)]
 pub proof fn lemma_c08_roundtrip(a: V1Addresses)
     ensures
         v1_display(a).len() <= 107,
@@ -212,6 +213,7 @@ pub proof fn lemma_v1_format_literals()
 // [props: C08 C15]
 /// appending the canonical line piece by piece gives the canonical line (re-association only)
 #[verifier::spinoff_prover]
+#[verifier::rlimit(60)]
 pub proof fn lemma_display_onto(o: Seq<u8>, a: V1Addresses)
     ensures v1_display_onto(o, a) =~= o + v1_display(a)
 {
